@@ -163,3 +163,12 @@ def source_tree(max_depth=4, sugar=True, big=False, in_def=False, max_len=5):
 
 
 SPELLING = st.one_of(st.just([0]), st.lists(st.integers(0, 2 ** 16), min_size=1, max_size=24))
+
+
+def dict_order(draw, d):
+    """The same mapping with its keys inserted in a drawn order: the order in which a caller filled its sigfield dict is
+    not part of any message (instructions read sigfield1..8 by name)."""
+    keys = list(d)
+    if len(keys) < 2 or draw(st.integers(0, 2)) == 0:
+        return d
+    return {k: d[k] for k in draw(st.permutations(keys))}
